@@ -127,6 +127,8 @@ CURATED = [
     ("same-tag-inline-a", [["h", U8, None], ["e", arr(["struct", "entry", [["a", U8, None]], "tag"], 3), None],
                            ["f", arr(["struct", "entry", [["x", U32, None], ["y", U16, None]], "tag"], 3), None], ["t", U8, None]]),
     ("bits-enum-then-block", [["a", E16, 4], ["b", E16, 12], ["c", U32, None], ["d", F8, 3], ["e", F8, 5], ["f", U16, None]]),
+    ("empty-array-in-bytes-block", [["a", arr(U32, 0), None], ["b", arr(CHAR, 2), None], ["c", I48, None]]),
+    ("empty-arrays", [["a", arr(U16, 0), None], ["c", CHAR, None], ["b", arr(U32, 0), None], ["d", arr(U16, 2), None], ["e", arr(U8, 0), None]]),
     ("big-count", [["n", U8, None], ["d", arr(U16, ["expr", ["bin", "*", ["bin", "&", ["id", "n"], ["num", 1]], ["num", 300]]]), None], ["t", U8, None]]),
     ("big-count-even", [["n", U16, None], ["d", arr(U16, ["expr", ["bin", "*", ["bin", "&", ["id", "n"], ["num", 1]], ["num", 300]]]), None]]),
     ("big-count-int", [["n", U8, None], ["d", arr(I24, ["expr", ["bin", "*", ["bin", "&", ["id", "n"], ["num", 1]], ["num", 300]]]), None]]),
